@@ -339,6 +339,47 @@ func (a *addrRec) Handle(cx *layer4.Connection, next layer4.Handler) error {
 	return next.Handle(cx)
 }
 
+// phRec reads the connection's address placeholders the way later handlers do.
+type phRec struct{ remote, local string }
+
+func (a *phRec) Handle(cx *layer4.Connection, next layer4.Handler) error {
+	repl := cx.Context.Value(layer4.ReplacerCtxKey).(*caddy.Replacer)
+	if v, ok := repl.Get("l4.conn.remote_addr"); ok {
+		if ad, ok := v.(net.Addr); ok && ad != nil {
+			a.remote = ad.String()
+		}
+	}
+	if v, ok := repl.Get("l4.conn.local_addr"); ok {
+		if ad, ok := v.(net.Addr); ok && ad != nil {
+			a.local = ad.String()
+		}
+	}
+	return next.Handle(cx)
+}
+
+// VH_pp_placeholders: after an accepted PROXY header the connection's address
+// placeholders name the addresses the header declares (what later handlers and
+// matchers are given), not the sender of the header.
+func VH_pp_placeholders() {
+	st = &state{}
+	hdr := ppHeaders[1] // v2 PROXY TCP4 192.0.2.1:1000 -> 192.0.2.2:2000
+	D := append(append([]byte{}, hdr...), vapi.Bytes("tail", 4)...)
+	st.D = D
+	st.conn = &env.SymConn{D: D, MaxReads: 4, Remote: &net.TCPAddr{IP: net.IP{10, 1, 2, 3}, Port: 5555}}
+	hdrLen = len(hdr)
+	cx := layer4.WrapConnection(st.conn, nil, zap.NewNop())
+	pp := &l4proxyprotocol.Handler{}
+	vapi.Assert(pp.Provision(caddy.Context{}) == nil, "provision")
+	l4proxyprotocol.VerifQuiet(pp)
+	ph := &phRec{}
+	st.base = hdrLen
+	err := chain(pp, ph, recNext{rec{tag: "after-proxy-protocol"}}).Handle(cx)
+	vapi.Assert(err == nil, "handler failed")
+	vapi.Cover("placeholders read after the header")
+	vapi.Assert(ph.remote == "192.0.2.1:1000", "placeholder l4.conn.remote_addr does not name the source address the PROXY header declares")
+	vapi.Assert(ph.local == "192.0.2.2:2000", "placeholder l4.conn.local_addr does not name the destination address the PROXY header declares")
+}
+
 func VH_pp_allow() {
 	cx := startState(vapi.Param("MAXB", 200), vapi.Param("MAXD", 100))
 	ip := vapi.BytesN("ip", 4)
@@ -569,7 +610,7 @@ func init() {
 	for name, f := range map[string]func(){
 		"VH_core": VH_core, "VH_two_matchers": VH_two_matchers, "VH_wrap": VH_wrap, "VH_proxyproto": VH_proxyproto,
 		"VH_tee": VH_tee, "VH_throttle": VH_throttle, "VH_echo": VH_echo, "VH_read_step": VH_read_step,
-		"VH_step_rec": VH_step_rec, "VH_step_wrap": VH_step_wrap, "VH_step_proxyproto": VH_step_proxyproto, "VH_step_tee": VH_step_tee, "VH_tee_vars": VH_tee_vars,
+		"VH_step_rec": VH_step_rec, "VH_step_wrap": VH_step_wrap, "VH_step_proxyproto": VH_step_proxyproto, "VH_step_tee": VH_step_tee, "VH_tee_vars": VH_tee_vars, "VH_pp_placeholders": VH_pp_placeholders,
 		"VH_step_throttle": VH_step_throttle, "VH_step_echo": VH_step_echo, "VH_wrap_step": VH_wrap_step, "VH_pp_allow": VH_pp_allow, "VH_prefetch_step": VH_prefetch_step, "VH_match_step": VH_match_step,
 	} {
 		vapi.Register("c01."+name, f)
